@@ -723,8 +723,14 @@ def long_runs(rng, kind, to, thorough=False, base_id=800, fillers=None, lengths=
                     inner = {"op": "poll", "id": a, "ch": ch}       # no time has passed: early for every timeout > 0
                 else:
                     inner = {"op": "feed", "id": a, "m": fill[name]}
-                out.append({"op": "rep", "n": n, "cmd": inner})
-                for m in post:
+                special = len(pre) == 4
+                if special:
+                    # the run is followed directly by a real 7-bit encoding (x, y, value MSB): its value MSB is the
+                    # n + 1-th contributing message after the value LSB
+                    out.append({"op": "rep", "n": max(n - 2, 1), "cmd": inner})
+                else:
+                    out.append({"op": "rep", "n": n, "cmd": inner})
+                for m in ([] if special else post):
                     out.append({"op": "feed", "id": a, "m": m})
                     if twp:
                         out.append({"op": "feed", "id": b, "m": m, "tw": 1, "twp": twp})
@@ -737,11 +743,11 @@ def long_runs(rng, kind, to, thorough=False, base_id=800, fillers=None, lengths=
                 if kind == "cc14":
                     out.append({"op": "enc14", "id": a, "msg": [ch, rng.choice([cn, rng.randrange(32)]), rng.randrange(16384)]})
                 elif kind == "pn":
-                    m = rand_pn_msg(rng)
+                    m = rand_pn_msg(rng, kinds=("7",)) if special else rand_pn_msg(rng)
                     m[0] = ch
                     out.append({"op": "encpn", "id": a, "msg": m, "ord": "lsb"})
                 else:
-                    m = rand_pn_msg(rng)
+                    m = rand_pn_msg(rng, kinds=("7",)) if special else rand_pn_msg(rng)
                     m[0] = ch
                     ord_ = rng.choice(["msb", "lsb"])
                     nbytes = 4 if m[4] == 1 else 3
